@@ -650,7 +650,7 @@ func init() {
 			r.checkDecodeKey()
 		}})
 
-	register(&Obligation{ID: "C05.f", Props: []string{"C05", "C06"}, Template: "order-domain",
+	register(&Obligation{ID: "C05.f", Props: []string{"C05", "C06", "C09"}, Template: "order-domain",
 		Desc: "KeyGroupRange.IncludesKeyGroup is Start <= kg < End; Overlaps and Contains are half-open interval intersection / inclusion; OperatorPartition.OwnsKey tests the group read from key[:2] against the partition's own range; KeyGroupRangeFromBytes / neighborPartition.NeedsTable turn the inclusive end group into an exclusive End (+1)",
 		Run: func(r *Run) {
 			inc := r.P.Func("partitioning", "KeyGroupRange.IncludesKeyGroup")
@@ -711,6 +711,101 @@ func init() {
 				if !okEnd {
 					r.Fail(fn.Name()+":end+1", fn.Decl.Pos(), nil, "%s must turn the table's last (inclusive) key group into an exclusive range End by adding 1: a table whose last key is in this operator's first group would be judged foreign", fn.Name())
 				}
+			}
+		}})
+
+	register(&Obligation{ID: "C05.g", Props: []string{"C05", "C06"}, Template: "width",
+		Desc: "no key group or range index is squeezed through an integer narrower than 16 bits: KeySpace.rangeLookup's elements and every integer conversion of a non-constant in package partitioning are at least 16 bits wide, KeyGroup is a 16-bit type, and NewKeySpace rejects more than 65535 key groups (so 16 bits hold every group and every non-empty range's index)",
+		Run: func(r *Run) {
+			pkg := r.P.Pkg("partitioning")
+			sizes := types.SizesFor("gc", "amd64")
+			look := r.P.Field("partitioning", "KeySpace", "rangeLookup")
+			if sl, ok := look.Type().Underlying().(*types.Slice); ok {
+				r.SiteStr("KeySpace.rangeLookup element type " + sl.Elem().String())
+				if b, ok := sl.Elem().Underlying().(*types.Basic); !ok || b.Info()&types.IsInteger == 0 || sizes.Sizeof(b) < 2 {
+					r.Fail("partitioning.KeySpace.rangeLookup:width", look.Pos(), nil, "the key-group -> operator-index table holds %s: indices of operators beyond its range wrap around, so the router sends keys to operators that do not own them", sl.Elem())
+				}
+			} else {
+				r.Error("undecided: KeySpace.rangeLookup is no longer a slice")
+			}
+			kgT := r.P.TypeName("partitioning", "KeyGroup")
+			if b, ok := kgT.Type().Underlying().(*types.Basic); !ok || b.Info()&types.IsInteger == 0 || sizes.Sizeof(b) != 2 {
+				r.Fail("partitioning.KeyGroup:width", kgT.Pos(), nil, "KeyGroup must be a 16-bit integer: it is written as two bytes into every key")
+			}
+			n := 0
+			for _, file := range pkg.Syntax {
+				ast.Inspect(file, func(nd ast.Node) bool {
+					call, ok := nd.(*ast.CallExpr)
+					if !ok || len(call.Args) != 1 {
+						return true
+					}
+					tv, ok := pkg.TypesInfo.Types[call.Fun]
+					if !ok || !tv.IsType() {
+						return true
+					}
+					b, ok := tv.Type.Underlying().(*types.Basic)
+					if !ok || b.Info()&types.IsInteger == 0 {
+						return true
+					}
+					if av, ok := pkg.TypesInfo.Types[call.Args[0]]; ok && av.Value != nil {
+						return true // constant
+					}
+					if ab, ok := pkg.TypesInfo.TypeOf(call.Args[0]).Underlying().(*types.Basic); !ok || ab.Info()&types.IsInteger == 0 {
+						return true
+					}
+					n++
+					r.Site(call.Pos(), "integer conversion to "+tv.Type.String())
+					if sizes.Sizeof(b) < 2 {
+						sc := r.P.ScopeAt(call.Pos())
+						r.Fail(sc.Name(r.P)+":narrow:"+types.ExprString(call.Args[0]), call.Pos(), nil, "%s converts %s to the %d-bit type %s: key groups and range indices need 16 bits", sc.Name(r.P), types.ExprString(call.Args[0]), 8*sizes.Sizeof(b), tv.Type)
+					}
+					return true
+				})
+			}
+			if n < 8 {
+				r.Error("floor: only %d integer conversions found in package partitioning (12 confirmed by hand)", n)
+			}
+			// NewKeySpace rejects keyGroupCount > MaxUint16
+			nk := r.P.Func("partitioning", "NewKeySpace")
+			ni := nk.Pkg.TypesInfo
+			guard := false
+			ast.Inspect(nk.Decl.Body, func(nd ast.Node) bool {
+				is, ok := nd.(*ast.IfStmt)
+				if !ok {
+					return true
+				}
+				panics := false
+				for _, st := range is.Body.List {
+					if es, ok := st.(*ast.ExprStmt); ok {
+						if c, ok := es.X.(*ast.CallExpr); ok {
+							if id, ok := c.Fun.(*ast.Ident); ok && id.Name == "panic" {
+								panics = true
+							}
+						}
+					}
+				}
+				if !panics {
+					return true
+				}
+				ast.Inspect(is.Cond, func(m ast.Node) bool {
+					be, ok := m.(*ast.BinaryExpr)
+					if !ok || !r.isParam(nk, be.X, 0) {
+						return true
+					}
+					if tv, ok := ni.Types[be.Y]; ok && tv.Value != nil {
+						v := 0
+						sscanInt(tv.Value.String(), &v)
+						if (be.Op == token.GTR && v <= 65535 && v >= 1) || (be.Op == token.GEQ && v <= 65536 && v >= 2) {
+							guard = true
+						}
+					}
+					return true
+				})
+				return true
+			})
+			r.Site(nk.Decl.Pos(), "NewKeySpace bounds the key-group count by 65535")
+			if !guard {
+				r.Fail(nk.Name()+":bound", nk.Decl.Pos(), nil, "NewKeySpace no longer panics for more than 65535 key groups: group numbers above 65535 wrap in the 2-byte key prefix and in the lookup table")
 			}
 		}})
 }
